@@ -16,10 +16,13 @@ Run(c, st, k) ==
   IF k > Len(c.hist) THEN <<0, "">>
   ELSE LET e == c.hist[k]
            r == Apply(e.op, c.cfg, st, c.name, e.arg)
+           \* after del the value slot is empty or holds the re-materialised default (an attribute that has, or has had,
+           \* listeners is given its default back at once, for the notification): no read can tell the two apart
+           rematerialised == e.op = "del" /\ r.st.stored = "unset" /\ e.stored \in {"d_int", "d_str", "d_any"}
        IN IF e.res # r.res THEN <<k, "result">>
-          ELSE IF e.stored # r.st.stored THEN <<k, "stored-value">>
+          ELSE IF e.stored # r.st.stored /\ ~rematerialised THEN <<k, "stored-value">>
           ELSE IF (e.it = 1) # (r.st.itrait # "none") THEN <<k, "instance-trait">>
-          ELSE Run(c, r.st, k + 1)
+          ELSE Run(c, [r.st EXCEPT !.stored = e.stored], k + 1)
 Judge == i <= 0 \/ LET f == Run(Trace[i], St0, 1) IN IF f[1] = 0 THEN TRUE ELSE PrintT(<<"REJECT", i, {f}>>)
 AllJudged == TLCGet("distinct") = N + NB + 1
 =============================================================================
